@@ -35,7 +35,7 @@ def run(chk, replay=None):
         "extraction ExtrOcamlBasic only; ocaml/lockstep.ml, handlers/h_mutexv1.ml, h_mutexv2.ml glue",
         "harness: verif_shim.hpp + dsched (serialises real threads: sequential consistency assumed; the Dekker fences of v2 are therefore not exercised), vh.hpp, k1_mutex_v1.cpp, k1_mutex_v2.cpp",
         "compare_exchange_weak taken as strong (no spurious failures)",
-        "v2: atomic_intrusive_list operations (push_back/pop_front/try_remove/empty) are taken as atomic (linearizable) - named assumption; the link-level list is a separate unit",
+        "v2: the waiter list is ABSTRACT (named assumption; the link-level atomic_intrusive_list.cpp is a separate unit): try_remove and empty atomic, push_back = claim tail + publish, successful pop_front = take (self := null) + publish (head := rest); K1 validates these linearization points against the real list on every explored schedule",
         "v2: inplace_stop_source modelled at lock granularity (C03 owns its internals)"]
     chk.cov["rule"] = ("K1: all schedules of each program with <= bound preemptions plus seeded random ones; "
                        "distinct = distinct projected traces; non-trivial = at least two context switches among owned events")
